@@ -192,8 +192,10 @@ theorem C17_close_returns_on_zero (s s' : S) (pc : CPc) (hs : step s (.closer pc
     exit check, which stores `closed`) observes – and no Add call is between its state check and its
     return, the ring and all shards are empty and every getter is accounted for outside the queue:
     ignored, invoked, dropped for a dead connection, or still with an Add that has not checked the
-    state yet.  PARTIAL: needs "no Add in flight" (see `C17_close_early_witness`), and says "invoked",
-    not "flushed" – the worker's flush may come after `Close` has returned. -/
+    state yet.  PARTIAL: it is about the instant of the observation, not about the return of `Close`:
+    needs "no Add in flight" (see `C17_close_early_witness`), the worker's observation may be stale by
+    the time it stores `closed` (see `C17_close_stale_exit_witness`), and it says "invoked", not
+    "flushed" – the worker's flush may come after `Close` has returned. -/
 theorem C17_close_waits_partial (n : Nat) (s : S) (h : Reachable n s) (hc : s.emptyAdds = 0) (ht : s.trigger = 0)
     (hall : ∀ (i : Nat) (a : Adder), s.adders[i]? = some a → a.pc = .state ∨ a.pc = .done ∨ a.pc = .panicked) :
     s.ring = [] ∧ (∀ (sh : Nat) (g : List Nat), s.getters[sh]? = some g → g = []) ∧ s.work = [] ∧
@@ -225,6 +227,20 @@ theorem C17_close_early_witness :
       s.adders[1]? = some { pc := .done, gts := [1], shard := 0, wasEmpty := false } ∧
       s.getters = [[0, 1]] ∧ s.invoked = [] :=
   ⟨final 1 closeEarly, reachable_final _ _ (by decide), by decide⟩
+
+def closeStale : List Act :=
+  [.add 1, .add 1, .close] ++ rep 11 (.adder 0) ++ rep 11 (.wk false false) ++ [.tail .recheck] ++
+  rep 11 (.adder 1) ++ [.closer .cas, .closer .state, .closer .trig, .tail .cas, .closer .state]
+
+/-- **Close returns early, no Add in flight** (in contract): a worker has passed its exit check
+    (`trigger = 0`) and is preempted before its `CAS(closing → closed)`; a second Add runs to completion
+    (its getter is in the shard, `trigger = 1`, a new worker is spawned but has not run); `Close` sets
+    `closing` and waits; the old worker's stale CAS now stores `closed`; `Close` loads `closed` and
+    returns nil with `trigger = 1` and the getter not invoked.  (It is invoked later by the new worker.) -/
+theorem C17_close_stale_exit_witness :
+    ∃ s, Reachable 1 s ∧ InContract s ∧ s.closeOk = 1 ∧ s.state = closed ∧ s.trigger = 1 ∧
+      s.adders.all (fun a => decide (a.pc = .done)) = true ∧ s.getters = [[1]] ∧ s.invoked = [0] :=
+  ⟨final 1 closeStale, reachable_final _ _ (by decide), by decide⟩
 
 def emptyAdd : List Act :=
   [.add 1, .add 0, .add 1, .add 0] ++ rep 11 (.adder 0) ++ rep 9 (.adder 1) ++ rep 5 (.adder 2) ++
